@@ -414,6 +414,9 @@ func c13Typed(c *run.C) {
 	if path == "ubjson" && hasBigUint(v, 0) {
 		tags = append(tags, "ubjson-uint-above-maxint64-typed")
 	}
+	if skipForeignFinding(c, "C13", tags) {
+		return
+	}
 	c.Begin(map[string]interface{}{"path": path, "type": t.String(), "value": valueString(v), "stream": s, "tags": tags})
 	for _, tg := range tags {
 		c.Tag(tg)
